@@ -54,6 +54,15 @@ def bases():
     e = engine("disabled-output", [in_a(), in_b()], [out_y(enabled=False), out_z()],
                [block("rb", [rule(P("a", "hi"), [C("y", "l"), C("z", "p")]), rule(OR(P("a", "lo"), P("b", "lo")), [C("z", "n")])])])
     es.append(e)
+    # a connective that occurs only in the RIGHT branch of an antecedent (`p or q and r` binds as or(p, and(q, r)); `p and (q or r)`), or only below two levels
+    es.append(engine("and-only-in-right-branch", [in_a(), in_b()], [out_y()],
+                     [block("rb", [copy.deepcopy(r_plain), rule(OR(P("a", "md"), AND(P("b", "lo"), P("a", "hi", "not"))), [C("y", "m")])])]))
+    es.append(engine("or-only-in-right-branch", [in_a(), in_b()], [out_y()],
+                     [block("rb", [copy.deepcopy(r_plain), rule(AND(P("a", "lo"), OR(P("b", "hi"), P("a", "md"))), [C("y", "s")])])]))
+    es.append(engine("and-only-two-levels-down", [in_a(), in_b()], [out_y()],
+                     [block("rb", [rule(OR(P("a", "md"), OR(P("b", "mid"), AND(P("b", "lo"), P("a", "hi")))), [C("y", "m")])])]))
+    es.append(engine("or-only-two-levels-down-left", [in_a(), in_b()], [out_y()],
+                     [block("rb", [rule(AND(AND(OR(P("b", "hi"), P("a", "md")), P("a", "lo")), P("b", "mid", "not")), [C("y", "s")])])]))
     return es
 
 
